@@ -108,7 +108,8 @@ def subexpr_paths(e, path=()):
     """paths of int-valued sub-expressions that may be wrapped"""
     k = e[0]
     out = []
-    if k in ("lit", "var", "bin", "if", "iflet", "block", "match", "call", "gcall", "raw2") and not (k == "raw2" and not e[3].endswith("sum()")):
+    if k in ("lit", "var", "bin", "if", "iflet", "block", "match", "call", "gcall", "raw2", "post") and not (k == "raw2" and not e[3].endswith("sum()")) \
+            and not (k == "block" and e[2][0] == "lam") and not (k == "gcall" and e[5] is not None):
         out.append(path)
     kids = {"bin": [2, 3], "if": [2, 3], "iflet": [3, 4], "block": [2], "paren": [1], "wrap": [1]}.get(k, [])
     for i in kids:
@@ -124,7 +125,7 @@ def replace_at(e, path, f):
     return tuple(l)
 
 
-def rewrites(rng, p, accepted):
+def rewrites(rng, p, accepted, max_single=8):
     """-> list of (rewrite kind, rewritten program)"""
     out = []
     names = scopegen.local_names(p)
@@ -133,9 +134,9 @@ def rewrites(rng, p, accepted):
         out.append(("rename-local", scopegen.rename_name(p, old, "z" + old + "q")))
     q = dict(p)
     q["classes"] = rng.shuffle(p["classes"])
-    q["member_order"] = rng.shuffle(list(range(len(p["funs"]) + 3)))
+    q["member_order"] = rng.shuffle(list(range(scopegen.n_members(p))))
     out.append(("reorder", q))
-    for kind in ("paren", "wrap"):
+    for kind in ("paren", "wrap", "paren", "wrap"):
         fi = rng.below(len(p["funs"]))
         paths = subexpr_paths(p["funs"][fi]["body"])
         if paths:
@@ -145,22 +146,19 @@ def rewrites(rng, p, accepted):
             q["funs"][fi]["body"] = replace_at(p["funs"][fi]["body"], path, lambda e: (kind, e))
             out.append((kind, q))
     if accepted and not p.get("broken"):
-        cnt = [0]
-        def ann(e):
-            if e[0] == "block":
-                return ("block", [(s[0], s[1], s[2], True if s[1][0] == "pid" and s[2][0] != "lam" and rng.chance(2, 3) else s[3]) for s in e[1]], e[2])
-            if e[0] == "lam" and rng.chance(2, 3):
-                cnt[0] += 1
-                return ("lam", [(x, True) for x, _ in e[1]], e[2])
-            if e[0] == "gcall" and e[1] == "Main.id" and rng.chance(2, 3):
-                cnt[0] += 1
-                return ("gcall", e[1], e[2], True)
-            return e
-        q = dict(p)
-        q["funs"] = [{"name": f["name"], "params": f["params"], "body": scopegen.map_expr(f["body"], ann)} for f in p["funs"]]
-        out.append(("annotate", q))
+        # "make an inferred type explicit": every site individually, random subsets, and all at once
+        sites = scopegen.annotation_sites(p)
+        singles = rng.shuffle(sites)[:max_single]
+        for st in singles:
+            out.append(("annotate-one:" + st[0], scopegen.annotate(p, [st])))
+        for _ in range(2 if len(sites) > 2 else 0):
+            sub = [st for st in sites if rng.chance(1, 2)]
+            if sub and len(sub) < len(sites):
+                out.append(("annotate-subset", scopegen.annotate(p, sub)))
+        if sites:
+            out.append(("annotate-all", scopegen.annotate(p, sites)))
     q = dict(p)
-    q["split"] = [c for c in ("Box", "Sh", "Opt") if rng.chance(1, 2)] or ["Sh"]
+    q["split"] = [c for c in scopegen.LIB_ORDER if rng.chance(1, 2)] or ["Sh"]
     out.append(("split-modules", q))
     return out
 
@@ -168,7 +166,7 @@ def rewrites(rng, p, accepted):
 def matches_finding(ctx, kind, detail):
     for f in ctx.open_findings:
         sig = f.get("signature", "")
-        if sig.startswith("rewrite=") and sig.split("=", 1)[1].split(";")[0] == kind:
+        if sig.startswith("rewrite=") and sig.split("=", 1)[1].split(";")[0] == kind.split(":")[0]:
             return f
     return None
 
@@ -308,13 +306,18 @@ def run(ctx):
             if key[2] == "no-node":
                 beh["no_node"] += 1
                 continue
+            if o["compile"] == "panic":     # compiler crash on an accepted program: C03's business
+                beh["compiler_panics"] = beh.get("compiler_panics", 0) + 1
+                if kind == "original":
+                    orig[pi] = None
+                continue
             if kind == "original":
                 orig[pi] = key
                 if len(samples) < 3:
                     samples.append({"program": scopegen.render(q)["Main"][-400:], "output": list(key[1])})
                 continue
             beh["compared"] += 1
-            if pi in orig and orig[pi] != key and ("beh" + kind) not in reported:
+            if orig.get(pi) is not None and orig[pi] != key and ("beh" + kind) not in reported:
                 reported.add("beh" + kind)
                 ctx.violation(f"rewrite `{kind}` changes the behaviour of an accepted program: {orig[pi]} -> {key}",
                               {"rewrite": kind, "original": scopegen.render(progs[pi]), "rewritten": scopegen.render(q),
